@@ -399,6 +399,7 @@ struct Exec {
 
   void finish() {
     if (!m.ended) { end(false); c.step(); after_op(); }
+    c.trace("program: %s", hist.c_str());
     c.stage("release");
     span = nostd::shared_ptr<tr::Span>();  // the destructor calls End() once more
     c.stage("ForceFlush");
